@@ -22,7 +22,8 @@ RULE = ("real multi-priority runs (IPOPT) on generated linear models and goal se
         "multipliers are run through the verified certificate checker (KktCert.check_cert) on the "
         "independently built convex QP, which bounds the distance of the reported objective value from the "
         "optimum. non-trivial = priority index >= 1 (retained constraints present) or >= 2 goals; "
-        "distinct = abstracted (case, priority) shapes")
+        "distinct = abstracted (case, priority) shapes"
+        ' Also: the constraint store after each priority against the documented (f* + relaxation)/nominal + constraint_relaxation for minimisation goals; the retained, probability-weighted priority objective on later solutions of keep_soft / single-pass trade-off runs; vector goal vs its scalar goals (scale_by_problem_size); ensembles with member-dependent point goals.')
 MODELLED = ("goal_programming_mixin_base.py _gp_goal_constraints / _gp_objective / _gp_path_objective; "
             "goal_programming_mixin.py objective(), path_objective(), constraints(), path_constraints(), bounds() "
             "for the multi-pass variant; transcription as in C01/C06")
